@@ -41,8 +41,11 @@ impl PatternSet {
     /// Check if the input matches any of the patterns.
     #[must_use]
     pub fn is_match(&self, input: &str) -> bool {
+        // `?` matches a single character, not a single byte: match on Unicode scalar values
+        let input: Vec<char> = input.chars().collect();
         for pattern in &self.patterns {
-            if Self::match_pattern(&pattern.bytes, input.as_bytes()) {
+            let pattern: Vec<char> = String::from_utf8_lossy(&pattern.bytes).chars().collect();
+            if Self::match_pattern(&pattern, &input) {
                 return true;
             }
         }
@@ -50,7 +53,7 @@ impl PatternSet {
     }
 
     /// <https://leetcode.com/problems/wildcard-matching/>
-    fn match_pattern(pattern: &[u8], input: &[u8]) -> bool {
+    fn match_pattern<T: Copy + PartialEq + From<u8>>(pattern: &[T], input: &[T]) -> bool {
         let mut p_idx = 0;
         let mut s_idx = 0;
 
@@ -60,7 +63,7 @@ impl PatternSet {
         loop {
             if p_idx < pattern.len() {
                 let p = pattern[p_idx];
-                if p == b'*' {
+                if p == T::from(b'*') {
                     p_idx += 1;
                     p_back = p_idx;
                     s_back = s_idx;
@@ -69,7 +72,7 @@ impl PatternSet {
 
                 if s_idx < input.len() {
                     let c = input[s_idx];
-                    if p == c || p == b'?' {
+                    if p == c || p == T::from(b'?') {
                         p_idx += 1;
                         s_idx += 1;
                         continue;
